@@ -537,3 +537,18 @@ func init() {
 		return Array(bytesToVals(h[:]))
 	})
 }
+
+func init() {
+	reg("(time.Time).MarshalBinary", func(in *Interp, fn *ssa.Function, a []Value, pos token.Pos) Value {
+		return tup(blobSlice(a[0], "time.Time"), Iface{})
+	})
+	reg("(*time.Time).UnmarshalBinary", func(in *Interp, fn *ssa.Function, a []Value, pos token.Pos) Value {
+		p := a[0].(*Value)
+		b, ok, _ := blobOf(a[1])
+		if !ok {
+			return errIface(&ErrVal{Msg: "Time.UnmarshalBinary: invalid data"})
+		}
+		in.write(p, b.V)
+		return Iface{}
+	})
+}
